@@ -477,8 +477,10 @@ fn hostile_model(rng: &mut Rng, which: Which, r: &R) -> Option<(Vec<u8>, &'stati
             "QoS 3"
         }
         2 if which == Which::V5 => {
+            // Subscription Identifier may repeat in PUBLISH only; User Property may always repeat
+            let is_publish = matches!(m, R::Publish { .. });
             let p = props_mut(&mut m)?;
-            let once: Vec<Prop> = p.iter().filter(|x| x.id() != 0x26 && x.id() != 0x0B).cloned().collect();
+            let once: Vec<Prop> = p.iter().filter(|x| x.id() != 0x26 && (x.id() != 0x0B || !is_publish)).cloned().collect();
             if once.is_empty() {
                 return None;
             }
